@@ -707,6 +707,36 @@ func (c *specCtx) callExpr(x *ast.CallExpr) (tv, error) {
 		}
 		tag := vc.typeTag(a.ty)
 		return tv{Term{fmt.Sprintf("(mkif_%s %s %s)", a.Sort.Suffix(), tag, a.S), SV}, nil}, nil
+	case "ptr_as":
+		// ptr_as(x, "pkg/path.Type"): the pointer payload of interface value x, typed *Type
+		a, err := c.tr(args[0])
+		if err != nil {
+			return tv{}, err
+		}
+		lit, ok := args[1].(*ast.BasicLit)
+		if !ok {
+			return tv{}, fmt.Errorf("ptr_as needs a string literal")
+		}
+		name, _ := strconv.Unquote(lit.Value)
+		i := strings.LastIndex(name, ".")
+		if i < 0 {
+			return tv{}, fmt.Errorf("ptr_as: bad type name %q", name)
+		}
+		var T types.Type
+		for _, p := range fr.enc.prog.AllPackages() {
+			if p.Pkg.Path() == name[:i] {
+				if obj := p.Pkg.Scope().Lookup(name[i+1:]); obj != nil {
+					T = obj.Type()
+				}
+			}
+		}
+		if T == nil {
+			return tv{}, fmt.Errorf("ptr_as: type %q not found", name)
+		}
+		if a.Sort == SInt {
+			return tv{a.Term, types.NewPointer(T)}, nil
+		}
+		return tv{Term{fmt.Sprintf("(ipay_I %s)", a.S), SInt}, types.NewPointer(T)}, nil
 	case "isfresh":
 		// the object was allocated after the reference state (old): call entry / function entry
 		a, err := c.tr(args[0])
